@@ -637,7 +637,7 @@ func runC18(c *Ctx) {
 			fn := fn
 			for i := 0; i < st.NumFields(); i++ {
 				f := st.Field(i)
-				if len(storesTo(fn, f)) > 0 {
+				if len(storesDeep(fn, f)) > 0 {
 					reinit[f] = true
 					if fn == initM {
 						reinitInInit[f] = true
@@ -674,16 +674,18 @@ func runC18(c *Ctx) {
 			seen[f] = true
 			if reinit[f] && !reinitInInit[f] {
 				f := f
-				okp, why := mustPassAt(w.reset.Blocks[0], 0, func(in ssa.Instruction) bool {
-					if st, ok := in.(*ssa.Store); ok {
-						if fv, _ := fieldAddrOf(st.Addr); fv == f {
+				okp, why := mustPassAt(w.reset.Blocks[0], 0, func(in0 ssa.Instruction) bool {
+					return doesDeep(in0, func(in ssa.Instruction) bool {
+						if st, ok := in.(*ssa.Store); ok {
+							if fv, _ := fieldAddrOf(st.Addr); fv == f {
+								return true
+							}
+						}
+						if call, ok := in.(*ssa.Call); ok && call.Call.StaticCallee() != nil && call.Call.StaticCallee().Name() == "Reset" && len(call.Call.Args) > 0 && loadedField(call.Call.Args[0]) == f {
 							return true
 						}
-					}
-					if call, ok := in.(*ssa.Call); ok && call.Call.StaticCallee() != nil && call.Call.StaticCallee().Name() == "Reset" && len(call.Call.Args) > 0 && loadedField(call.Call.Args[0]) == f {
-						return true
-					}
-					return false
+						return false
+					})
 				})
 				c.check(okp, w.reset, "field "+f.Name()+" always", w.reset.Pos(), "re-initialised on every path of reset()", "reset() skips the re-initialisation of "+f.Name()+" on some path ("+why+"): after a failed handshake the bytes / frames of the previous attempt are still there when the stream is used again")
 			}
